@@ -91,7 +91,16 @@ def _make_imagemap(tokens):
 
 comment = (Literal("#") + restOfLine).setParseAction(_make_comment)
 
-INTEGER = Word(nums).setParseAction(lambda single_number: int(single_number[0]))
+def _make_integer(string, location, tokens):
+    try:
+        return int(tokens[0])
+    except ValueError as err:
+        # int() refuses digit strings longer than sys.get_int_max_str_digits(): such a
+        # line is no shape, it is kept as text like any other malformed line
+        raise ParseException(string, location, str(err)) from err
+
+
+INTEGER = Word(nums).setParseAction(_make_integer)
 INTEGER_PAIR = (INTEGER + INTEGER).setParseAction(
     lambda pair_of_numbers: tuple(pair_of_numbers)
 )
